@@ -212,6 +212,11 @@ def _setting_cell(kind, param, value):
             wl = cx.n - max(fh) + 1 + int(cx.rng.integers(0, max(fh) - 1)) if max(fh) > 1 else cx.n
             ops = [lambda cv: list(cv.split(cx.y)), lambda cv: (list(cv.split(cx.y)), cv.get_n_splits(cx.y))[0]]
             op = ops[run.variant % 2]
+            if value == "sliding-initial":
+                # a regular window that fits, a longer initial window that just does not
+                small = max(2, (cx.n - max(fh)) // 2)
+                return (lambda: op(SlidingWindowSplitter(fh=fh, window_length=small, initial_window=wl))), \
+                       (lambda: op(SlidingWindowSplitter(fh=fh, window_length=small, initial_window=cx.n - max(fh)))), None
             return (lambda: op(cls(fh=fh, **{k: wl}))), (lambda: op(cls(fh=fh, **{k: cx.n - max(fh)}))), None
         raise ValueError(kind)
     run.variant = 0
@@ -376,7 +381,7 @@ for _s in ("by-one", "by-some", "twice"):
     _add("setting:naive:seasonal-period-longer-than-series:%s" % _s, _setting_cell("naive-season-too-long", None, _s))
 for _s in ("recursive", "direct", "multioutput", "dirrec"):
     _add("setting:reduce:window-too-long:%s" % _s, _setting_cell("reduce-window-too-long", None, _s))
-for _s in ("sliding", "expanding"):
+for _s in ("sliding", "expanding", "sliding-initial"):
     _add("setting:splitter:window-does-not-fit:%s" % _s, _setting_cell("window-does-not-fit", None, _s))
 for _k in ("sliding", "expanding", "single", "cutoff"):
     for _c in ("dup", "empty", "frac", "str", "tuple", "empty-fh-object", "empty-array"):
